@@ -261,6 +261,39 @@ func propC12(c *ctx) error {
 			}
 		}
 	}
+	// ---------- == and != on two operands of the same UNCOMPARABLE kind (slices, maps, functions) are failures, as in Go:
+	// never true / false
+	{
+		fnv := func() int { return 1 }
+		nat := map[string]any{"xs": []int{1, 2}, "ys": []int{1, 2}, "as": []any{1}, "m": map[string]int{"k": 1}, "m2": map[string]int{"k": 1}, "am": map[string]any{"k": 1},
+			"f": fnv, "g": fnv, "t": true, "st": struct{ L []int }{[]int{1}}}
+		for _, src := range []string{"xs == ys", "xs == xs", "xs != ys", "as == as", "m == m", "m != m2", "am == am", "f == f", "f != g", "xs == ys ? 1 : 2", "t && xs == xs", "!(m == m2)", "st == st", "st != st"} {
+			out := implEval(src, []any{nat}, nil)
+			res.eval("uncomparable|"+src, true, J{"src": src})
+			res.S3Checked++
+			res.count("uncomparable_operands")
+			if out.R == "ok" {
+				res.violate(J{"src": src, "data": "slices / maps / funcs of the same type (prop_c12.go)"}, "error", out.V, "comparing two values of an uncomparable kind yields a value instead of failing the expression")
+			}
+		}
+		// the model's value universe has slices and maps: the same through the correspondence
+		data := vMap(kv{"xs", vIntSlice(1, 2)}, kv{"ys", vIntSlice(1, 2)}, kv{"m", vMap(kv{"k", vInt(1)})}, kv{"m2", vMap(kv{"k", vInt(1)})})
+		for _, src := range []string{"xs == ys", "xs == xs", "xs != ys", "m == m", "m != m2"} {
+			if c.d != nil {
+				m, err := c.d.ask(J{"op": "eval", "src": src, "data": data.j})
+				if err != nil {
+					return err
+				}
+				out := implEval(src, []any{data.g}, nil)
+				if sget(m, "r") != "unsupported" {
+					res.S2Compared++
+					if (sget(m, "r") == "ok") != (out.R == "ok") {
+						res.disagree(J{"src": src}, J{"r": out.R, "v": out.V}, m, "eval")
+					}
+				}
+			}
+		}
+	}
 	// ---------- a scope whose lookup FAILS (for a reason other than "absent") fails the expression and the render, and the
 	// error wraps the cause — wherever that scope sits (innermost, a middle layer, the manager's global scope) and whatever
 	// the scopes further out define under the same name (user maps, the built-in functions)
